@@ -1,17 +1,18 @@
 #!/bin/sh
 # usage: tools/confirm_seed.sh <id> [cargo feature args...]
-# Re-confirms a seeded change in its scratch worktree /tmp/seed/<id>:
-#   (1) pinned suite passes with the change, (2) demo fails with the change, (3) demo passes without it.
+# Re-confirms a seeded change in its scratch worktree /tmp/seed/<id> (never uses git stash: the stash is
+# shared between worktrees):  (1) pinned suite passes with the change, (2) demo fails with the change,
+# (3) demo passes without it.
 ID="$1"; shift
 W=/tmp/seed/$ID
 export CARGO_TARGET_DIR=$W/target CARGO_NET_OFFLINE=true
 cd $W || exit 2
-git diff --quiet -- src ruint-macro && { git apply seed_out/patch.diff || exit 2; }
+git checkout -q -- . && git apply seed_out/patch.diff || { echo "$ID: patch does not apply to HEAD"; exit 2; }
 S=$(cargo test --workspace --offline --lib --bins --tests 2>&1 | awk '/^test result/ {p+=$4; f+=$6} END {print "passed=" p " failed=" f}')
 mkdir -p tests && cp seed_out/demo.rs tests/seed_demo.rs
 cargo test --offline --test seed_demo "$@" >/tmp/seed/$ID.with.log 2>&1; A=$?
-git stash push -q -- src ruint-macro
+git apply -R seed_out/patch.diff
 cargo test --offline --test seed_demo "$@" >/tmp/seed/$ID.without.log 2>&1; B=$?
-git stash pop -q
+git apply seed_out/patch.diff
 rm -rf tests
 echo "$ID suite_with_change: $S | demo_with_change_exit=$A (want != 0) | demo_without_change_exit=$B (want 0)"
